@@ -79,6 +79,28 @@ Section FrameRing.
       rewrite E, Hn, H1, Hnu. ring.
   Qed.
 
+  (** outer-product form of the Lagrange identity:
+      (n x u) ((n x u) . v) = (|n|^2 |u|^2 - (n.u)^2) v - |u|^2 (n.v) n - |n|^2 (u.v) u
+                              + (n.u) ((u.v) n + (n.v) u) *)
+  Lemma cross_outer (n u v : @vec T) :
+    vscale (vdot (vcross n u) v) (vcross n u) =
+    vadd (vsub (vsub (vscale (vdot n n * vdot u u - vdot n u * vdot n u)%T v)
+                     (vscale (vdot u u * vdot n v)%T n))
+               (vscale (vdot n n * vdot u v)%T u))
+         (vscale (vdot n u) (vadd (vscale (vdot u v) n) (vscale (vdot n v) u))).
+  Proof. apply vec_eq; vec3; ring. Qed.
+
+  (** completeness: the frame (u, n x u, n) spans the space -- every vector is recovered from its
+      wall-frame coordinates; with [rotT_rot] the wall rotation is a bijection with inverse [rotT] *)
+  Theorem rot_rotT n u v : orthonormal n u -> rot n u (rotT n u v) = v.
+  Proof.
+    intros (Hn & Hu & Hnu).
+    assert (E : rot n u (rotT n u v) =
+                vadd (vadd (vscale (vdot u v) u) (vscale (vdot (vcross n u) v) (vcross n u)))
+                     (vscale (vdot n v) n)) by (apply vec_eq; vec3; ring).
+    rewrite E, cross_outer, Hn, Hu, Hnu. apply vec_eq; vec3; ring.
+  Qed.
+
   Lemma rot_sub n u v w : vsub (rot n u v) (rot n u w) = rot n u (vsub v w).
   Proof. apply vec_eq; vec3; ring. Qed.
   Lemma vdist2_dot (a b : @vec T) : vdist2 a b = vdot (vsub a b) (vsub a b).
